@@ -1,7 +1,11 @@
 package gscen
 
 import (
+	"os"
+	"strconv"
 	"testing"
+
+	"verif.local/ev"
 
 	"verif/lib/explore"
 	"verif/lib/netctl"
@@ -41,4 +45,16 @@ func ServeWorker(t *testing.T, plans []nrun.Plan) bool {
 		return res
 	})
 	return true
+}
+
+// CapQuickWorkers lowers the number of worker processes of the quick tier to
+// at most n. A quick-tier plan of this family is 25-330 executions of ~10 ms;
+// every worker is a fresh process of the test binary started per plan, and on
+// a busy machine starting 16 of them per plan costs more wall time than the
+// executions themselves (measured: 63 executions in 0.8 s with 4 workers,
+// 12 s with 16 under load). The thorough tier keeps the configured count.
+func CapQuickWorkers(n int) {
+	if !ev.Thorough() && ev.Workers() > n {
+		os.Setenv("VERIF_WORKERS", strconv.Itoa(n))
+	}
 }
